@@ -127,6 +127,11 @@ func MakeVariant(r *simrt.Run, p *Program, identity bool, allowPackage bool) Var
 		q.Facts = append(q.Facts, Fact{Pred: fp(f.Pred), Args: f.Args, Ann: f.Ann})
 	}
 	q.Decls = append(q.Decls, p.Decls...)
+	// textual order of all clauses, facts and rules mixed
+	if r.Bool("var.mixclauses") {
+		q.Order = shuffleInts(r, len(q.Facts)+len(q.Rules), "var.clauseorder")
+		desc += "mixed-clause-order "
+	}
 	if allowPackage && r.OneIn(3, "var.package") {
 		q.Package = "pk"
 		nb := map[string]string{}
